@@ -30,7 +30,7 @@ structure RunInv (E : RodasEnv ℚ) (s : RodasState ℚ) : Prop where
   dt_pos : E.hmin ≤ s.dt
   dt_max : s.dt ≤ E.hmaxV
   nostop : s.stop = false
-  finished : s.done = true → s.failed = true ∨ s.T.length = 10001 ∨ (0 ≤ E.tend - s.t ∧ E.tend - s.t < E.uround)
+  finished : s.done = true → s.failed = true ∨ s.T.length = 10001 ∨ s.t = E.tend
 
 namespace RunHyp
 variable {E : RodasEnv ℚ} (H : RunHyp E)
@@ -88,13 +88,13 @@ theorem accepted_fields (err fac0 : ℚ) (s : RodasState ℚ)
     (h1 : E.O.lt (E.O.abs s.dt) E.uround = false) (h2 : ¬ s.reject > 100) (ha : E.O.le err E.O.one = true) :
     (E.attempt err fac0 s).t = tNew E s ∧ (E.attempt err fac0 s).T = tNew E s :: s.T ∧
     (E.attempt err fac0 s).stop = s.stop ∧ (E.attempt err fac0 s).failed = s.failed ∧
-    (E.attempt err fac0 s).done = ((s.T.length == 10000) || (decide (|E.tend - tNew E s| < E.uround) || s.stop)) := by
+    (E.attempt err fac0 s).done = ((s.T.length == 10000) || (decide (E.tend ≤ tNew E s) || s.stop)) := by
   have e1 : E.isLast { s with attempts := s.attempts + 1 } = E.isLast s := rfl
   have e2 : E.stepDt { s with attempts := s.attempts + 1 } = E.stepDt s := rfl
   simp only [attempt, h1, h2, H.hf, ha, Bool.false_eq_true, if_false, if_true, accept, doEvents, H.events_empty, output, H.hd,
     finish, advance, e1, e2]
-  simp only [tNew, H.add_eq, H.lt_iff, H.abs_eq, H.sub_eq, List.length_cons, Nat.add_sub_cancel, Bool.not_false,
-    Bool.and_true]
+  simp only [tNew, H.add_eq, H.lt_iff, H.le_iff, H.abs_eq, H.sub_eq, List.length_cons, Nat.add_sub_cancel, Bool.not_false,
+    Bool.and_true, Bool.false_and, Bool.or_false]
   exact ⟨trivial, trivial, trivial, trivial, rfl⟩
 
 /-- the fields of the state after a rejected attempt -/
@@ -155,7 +155,7 @@ theorem attempt_inv (err fac0 : ℚ) (s : RodasState ℚ) (I : RunInv E s) (hr :
       rw [fdone, ft] at *
       simp only [I.nostop, Bool.or_false, Bool.or_eq_false_iff, decide_eq_false_iff_not] at hdone
       by_cases hl : E.isLast s = true
-      · exfalso; apply hdone.2; rw [hgt.2.2.2 hl]; simpa using H.hu
+      · exfalso; apply hdone.2; rw [hgt.2.2.2 hl]
       · exact hgt.2.2.1 (by simpa using hl)
     · intro hdone
       rw [fdone] at hdone
@@ -164,9 +164,7 @@ theorem attempt_inv (err fac0 : ℚ) (s : RodasState ℚ) (I : RunInv E s) (hr :
       rcases hdone with hcap | hnear
       · right; left; simp [hcap]
       · right; right
-        have hnn : 0 ≤ E.tend - tNew E s := by linarith [hgt.2.1]
-        rw [abs_of_nonneg hnn] at hnear
-        exact ⟨hnn, hnear⟩
+        exact le_antisymm hgt.2.1 hnear
   · have ha' : E.O.le err E.O.one = false := by simpa using ha
     obtain ⟨ft, fT, fstop, ffail, fdone⟩ := H.rejected_fields err fac0 s h1' h2 ha'
     refine ⟨by rw [fT, ft]; exact I.head, by rw [fT]; exact I.last, by rw [fT]; exact I.incr, by rw [ft]; exact I.le_tend,
